@@ -1,8 +1,9 @@
 """C11 — flattening keeps the operations (DESIGN.md 7, C11)."""
 import json
 import coregen
-from coregen import gen_case, nontrivial as _nt, c_env, c_prog, c_obs, c_oentry, shrink_candidates
+from coregen import gen_case, nontrivial as _nt, c_env, c_prog, c_obs, c_oentry
 from common import cbool, clist, cz
+import libgen
 
 ID = 'C11'
 GEN_MODULES = ['Ident', 'Classes']
@@ -10,7 +11,7 @@ MODEL_TARGETS = ['coq/C11/Run.vo']
 PROOF_TARGETS = ['coq/C11/Proofs.vo']
 PROPS_FILE = 'coq/Props/C11.v'
 RUN_MODULE = 'QCE.C11.Run'
-COQ_HEADER = 'From Gen Require Import Ident Classes.\nFrom QCE Require Import Core.Model Core.Run.'
+COQ_HEADER = 'From Gen Require Import Ident Classes.\nFrom QCE Require Import Core.Model Core.Run Lib.Run.'
 IMPL = 'harness/impl/core_impl.py'
 IMPL_KW = {'shards': 12}
 SHARD = 80
@@ -27,6 +28,12 @@ def gen_cases(rng, tier):
     for _ in range(n):
         c = gen_case(rng, maxlen=rng.choice([3, 5, 8]), depth=3, p_sub=0.3, p_rel=0.0, p_dangling=0.02)
         c['obs'] = ['flatten']
+        cases.append(c)
+    # library-built circuits, modifier-applied then flattened: order, schedule, indices and Stim program must be identical
+    nlib = 20 if tier == 'quick' else 250
+    for _ in range(nlib):
+        c = libgen.gen_repcode(rng, max_d=3 if tier == 'quick' else 5, max_cycles=5 if tier == 'quick' else 8)
+        c['obs'] = ['structure', 'unrolled', 'flat']
         cases.append(c)
     return cases
 
@@ -47,6 +54,12 @@ ERR = "{| f_prog := []; f_env := mk_env 0 0 0 0 []; f_plain := Some {| f_before 
 
 
 def to_coq(c, o):
+    if c.get('k'):
+        return f"(KLib {libgen.c_lcase(c, o)})"
+    return f"(KCore {to_coq_core(c, o)})"
+
+
+def to_coq_core(c, o):
     if 'error' in o:
         return ERR
     env, reg_ids = c_env(c)
@@ -84,7 +97,7 @@ def known_class(c, o):
     """F10: after unrolling, the chained copies carry multi-links whose reference group contains a sub-circuit; flatten()
     re-inserts only the leaf operations, the links keep consulting the vanished nested graphs: RecursionError (cyclic
     relations) or a listing that a second flatten() changes.  The class excuses only the unrolled half of a case."""
-    if 'error' in o:
+    if 'error' in o or c.get('k'):
         return None
     if block_with_sub_repeated(c['prog']) and fexp_ok_py(o.get('flat_plain')) and not fexp_ok_py(o.get('flat_unrolled')):
         return F10_CLASS
@@ -92,17 +105,31 @@ def known_class(c, o):
 
 
 def nontrivial(c, o):
+    if c.get('k'):
+        return c['cycles'] >= 2
     return coregen.has_sub(c['prog']) and coregen.n_leaves(c['prog']) >= 2
 
 
 def kind(c):
+    if c.get('k'):
+        return 'library:' + c['k']
     return 'repeated' if coregen.max_reps(c['prog']) >= 2 else ('nested' if coregen.has_sub(c['prog']) else 'flat')
 
 
 def sample(c, o):
+    if c.get('k'):
+        return {'library_input': c}
     return {'prog': c['prog'], 'flat_len': len((o.get('flat_unrolled') or {}).get('ops', []))}
 
 
 LEVEL_TEXT = 'see DESIGN.md C11'
 LEVEL_NOTE = 'see DESIGN.md section 9'
 TECHNIQUE = 'Coq proof over an executable model + correspondence evaluated by vm_compute'
+
+
+def shrink_candidates(case):
+    if case.get('k'):
+        if case['cycles'] > 0:
+            yield dict(case, cycles=case['cycles'] - 1)
+        return
+    yield from coregen.shrink_candidates(case)
